@@ -1,22 +1,495 @@
+//! C20 harness: sensitivity-list lint on generated processes.
+//!
+//! usage: c20 <mode> <seed> <n> <workdir> <cases_out> <impl_out>
+//!   mode = random[:depth] | file:<path> | corpus
+//!     random : n generated processes (written to <cases_out>, every 97th also as a Gallina term to <cases_out>.coq)
+//!     file   : the case lines of <path> are re-run (replay / committed corpus)
+//!     corpus : writes the built-in hand-made corpus (F14, F15, F20, observations) to <cases_out> and runs it
+//! case line (TAB separated): id, flags, text (lines joined by '~'), oracle, root, ast  — see ocaml/c20_run.ml
+//!   flags: F in-family (generator's claim) | X outside the family | O has a signal actual of an out-mode formal |
+//!          H oracle not applicable (heuristic boundary: one-argument boolean function in an inspected condition,
+//!          clock edge in an uninspected branch, duplicate list entries) | c explicit list, k clocked, a `all`, n no list
+//!   oracle: `M<kw>:<id>@<a>-<b>,..;S<a>-<b>;..;?S<a>-<b>;?M<id>` expected diagnostics from the generator's own read
+//!          log (textual order, first read per signal), `?` = don't care (record signal only read through an element)
+//! impl line: the diagnostics of `Project::analyse()` mapped back to the process: `M<a>-<b>:<id>@<a>-<b>,..;S<a>-<b>;..`
+//!   (superfluous sorted), `E:<..>` for anything unexpected.
+use std::collections::{HashMap, HashSet};
+use std::fmt::Write as _;
+use std::io::Write as _;
 use std::path::Path;
-use vhdl_lang::{Config, NullMessages, Project, Source};
-fn main() {
-    let args: Vec<String> = std::env::args().collect();
-    let dir = Path::new(&args[1]).parent().unwrap().to_str().unwrap().to_string();
-    let fname = Path::new(&args[1]).file_name().unwrap().to_str().unwrap().to_string();
-    let mut msgs = NullMessages;
-    let mut cfg = Config::default();
-    cfg.load_external_config(&mut msgs, Some("/repo/vhdl_libraries".to_string()));
-    let toml = format!("[libraries]\nlib.files=['{}']\n", fname);
-    cfg.append(&Config::from_str(&toml, Path::new(&dir)).unwrap(), &mut msgs);
-    let t0 = std::time::Instant::now();
-    let mut p = Project::from_config(cfg, &mut msgs);
-    p.enable_sensitivity_list_linting();
-    for x in p.analyse() {
-        println!("{}:{}-{}:{} {:?} {}", x.pos.range.start.line + 1, x.pos.range.start.character, x.pos.range.end.line + 1, x.pos.range.end.character, x.code, x.message);
-        for (pos, m) in x.related.iter() {
-            println!("      related {}:{}-{}:{} {}", pos.range.start.line + 1, pos.range.start.character, pos.range.end.line+1, pos.range.end.character, m);
+use verif_harness::rng::Rng;
+use vhdl_lang::{Config, Diagnostic, NullMessages, Project};
+
+type Sp = (u32, u32);
+
+#[derive(Clone, Debug)]
+enum E {
+    Lit(Sp),
+    Desig(Sp, Option<u32>),
+    Selected(Sp, Box<E>, Option<u32>),
+    Slice(Sp, Box<E>, Vec<E>),
+    Attr(Sp, Box<E>, u8, Option<Box<E>>),
+    Call(Sp, Box<E>, Vec<E>),
+    Unary(Sp, Box<E>),
+    Binary(Sp, Box<E>, Box<E>),
+    Aggregate(Sp, Vec<E>),
+    Qualified(Sp, Box<E>),
+    Paren(Sp, Box<E>),
+}
+impl E {
+    fn sp(&self) -> Sp {
+        match self {
+            E::Lit(s) | E::Desig(s, _) | E::Selected(s, _, _) | E::Slice(s, _, _) | E::Attr(s, _, _, _)
+            | E::Call(s, _, _) | E::Unary(s, _) | E::Binary(s, _, _) | E::Aggregate(s, _) | E::Qualified(s, _)
+            | E::Paren(s, _) => *s,
         }
     }
-    eprintln!("{:?}", t0.elapsed());
+    fn primary(&self) -> bool {
+        !matches!(self, E::Unary(..) | E::Binary(..))
+    }
 }
+#[derive(Clone, Debug)]
+enum Rg {
+    Range(E, E),
+    Attr(E),
+}
+#[derive(Clone, Debug)]
+enum Dr {
+    Subtype(E, Option<Rg>),
+    Range(Rg),
+}
+#[derive(Clone, Debug)]
+enum Rhs<A> {
+    Simple(A),
+    Conditional(Vec<(A, E)>, Option<A>),
+    Selected(E, Vec<A>),
+}
+type Wave = Option<Vec<(E, Option<E>)>>;
+#[derive(Clone, Debug)]
+enum It {
+    For(Dr),
+    While(E),
+    None,
+}
+#[derive(Clone, Debug)]
+enum S {
+    SigAssign(E, Rhs<Wave>),
+    VarAssign(E, Rhs<E>),
+    Force(E, Rhs<E>),
+    Release(E),
+    If(Vec<(E, Vec<S>)>, Vec<S>),
+    Case(E, Vec<Vec<S>>),
+    Loop(It, Vec<S>),
+    Call(Sp, E, Vec<(char, E)>),
+    Assert(E, Option<E>, Option<E>),
+    Report(E, Option<E>),
+    Next(Option<E>),
+    Exit(Option<E>),
+    Null,
+    Wait(Vec<E>, Option<E>, Option<E>),
+}
+#[derive(Clone, Debug)]
+enum Sens {
+    None,
+    All,
+    Names(Vec<E>),
+}
+#[derive(Clone, Debug)]
+struct Proc {
+    kw: Sp,
+    sens: Sens,
+    body: Vec<S>,
+}
+
+// ---------------------------------------------------------------- token format for ocaml/c20_run.ml
+fn ser_e(e: &E, o: &mut String) {
+    match e {
+        E::Lit(s) => write!(o, "L {} {} ", s.0, s.1).unwrap(),
+        E::Desig(s, Some(i)) => write!(o, "D {} {} {} ", s.0, s.1, i).unwrap(),
+        E::Desig(s, None) => write!(o, "U {} {} ", s.0, s.1).unwrap(),
+        E::Selected(s, p, d) => {
+            write!(o, "S {} {} ", s.0, s.1).unwrap();
+            ser_e(p, o);
+            match d {
+                Some(i) => write!(o, "d {} ", i).unwrap(),
+                None => o.push_str("u "),
+            }
+        }
+        E::Slice(s, p, b) => {
+            write!(o, "I {} {} ", s.0, s.1).unwrap();
+            ser_e(p, o);
+            write!(o, "{} ", b.len()).unwrap();
+            b.iter().for_each(|x| ser_e(x, o));
+        }
+        E::Attr(s, p, k, a) => {
+            write!(o, "A {} {} ", s.0, s.1).unwrap();
+            ser_e(p, o);
+            write!(o, "{} ", k).unwrap();
+            ser_oe(a.as_deref(), o);
+        }
+        E::Call(s, p, a) => {
+            write!(o, "C {} {} ", s.0, s.1).unwrap();
+            ser_e(p, o);
+            write!(o, "{} ", a.len()).unwrap();
+            a.iter().for_each(|x| ser_e(x, o));
+        }
+        E::Unary(s, x) => {
+            write!(o, "N {} {} ", s.0, s.1).unwrap();
+            ser_e(x, o)
+        }
+        E::Binary(s, l, r) => {
+            write!(o, "B {} {} ", s.0, s.1).unwrap();
+            ser_e(l, o);
+            ser_e(r, o)
+        }
+        E::Aggregate(s, es) => {
+            write!(o, "G {} {} {} ", s.0, s.1, es.len()).unwrap();
+            es.iter().for_each(|x| ser_e(x, o));
+        }
+        E::Qualified(s, x) => {
+            write!(o, "Q {} {} ", s.0, s.1).unwrap();
+            ser_e(x, o)
+        }
+        E::Paren(s, x) => {
+            write!(o, "P {} {} ", s.0, s.1).unwrap();
+            ser_e(x, o)
+        }
+    }
+}
+fn ser_oe(e: Option<&E>, o: &mut String) {
+    match e {
+        Some(x) => {
+            o.push_str("1 ");
+            ser_e(x, o)
+        }
+        None => o.push_str("0 "),
+    }
+}
+fn ser_rg(r: &Rg, o: &mut String) {
+    match r {
+        Rg::Range(l, h) => {
+            o.push_str("r ");
+            ser_e(l, o);
+            ser_e(h, o)
+        }
+        Rg::Attr(a) => {
+            o.push_str("a ");
+            ser_e(a, o)
+        }
+    }
+}
+fn ser_dr(d: &Dr, o: &mut String) {
+    match d {
+        Dr::Subtype(tm, r) => {
+            o.push_str("s ");
+            ser_e(tm, o);
+            match r {
+                Some(r) => {
+                    o.push_str("1 ");
+                    ser_rg(r, o)
+                }
+                None => o.push_str("0 "),
+            }
+        }
+        Dr::Range(r) => {
+            o.push_str("g ");
+            ser_rg(r, o)
+        }
+    }
+}
+fn ser_wave(w: &Wave, o: &mut String) {
+    match w {
+        None => o.push_str("u "),
+        Some(els) => {
+            write!(o, "w {} ", els.len()).unwrap();
+            for (v, a) in els {
+                ser_e(v, o);
+                ser_oe(a.as_ref(), o);
+            }
+        }
+    }
+}
+fn ser_rhs<A>(r: &Rhs<A>, f: &dyn Fn(&A, &mut String), o: &mut String) {
+    match r {
+        Rhs::Simple(a) => {
+            o.push_str("x ");
+            f(a, o)
+        }
+        Rhs::Conditional(cs, els) => {
+            write!(o, "c {} ", cs.len()).unwrap();
+            for (a, c) in cs {
+                f(a, o);
+                ser_e(c, o);
+            }
+            match els {
+                Some(a) => {
+                    o.push_str("1 ");
+                    f(a, o)
+                }
+                None => o.push_str("0 "),
+            }
+        }
+        Rhs::Selected(sel, alts) => {
+            o.push_str("l ");
+            ser_e(sel, o);
+            write!(o, "{} ", alts.len()).unwrap();
+            alts.iter().for_each(|a| f(a, o));
+        }
+    }
+}
+fn ser_ss(ss: &[S], o: &mut String) {
+    write!(o, "{} ", ss.len()).unwrap();
+    ss.iter().for_each(|s| ser_s(s, o));
+}
+fn ser_s(s: &S, o: &mut String) {
+    match s {
+        S::SigAssign(t, r) => {
+            o.push_str("sa ");
+            ser_e(t, o);
+            ser_rhs(r, &|w, o| ser_wave(w, o), o)
+        }
+        S::VarAssign(t, r) => {
+            o.push_str("va ");
+            ser_e(t, o);
+            ser_rhs(r, &|e, o| ser_e(e, o), o)
+        }
+        S::Force(t, r) => {
+            o.push_str("fo ");
+            ser_e(t, o);
+            ser_rhs(r, &|e, o| ser_e(e, o), o)
+        }
+        S::Release(t) => {
+            o.push_str("re ");
+            ser_e(t, o)
+        }
+        S::If(bs, els) => {
+            write!(o, "if {} ", bs.len()).unwrap();
+            for (c, b) in bs {
+                ser_e(c, o);
+                ser_ss(b, o);
+            }
+            ser_ss(els, o)
+        }
+        S::Case(sel, alts) => {
+            o.push_str("ca ");
+            ser_e(sel, o);
+            write!(o, "{} ", alts.len()).unwrap();
+            alts.iter().for_each(|a| ser_ss(a, o));
+        }
+        S::Loop(it, b) => {
+            o.push_str("lo ");
+            match it {
+                It::For(d) => {
+                    o.push_str("f ");
+                    ser_dr(d, o)
+                }
+                It::While(c) => {
+                    o.push_str("w ");
+                    ser_e(c, o)
+                }
+                It::None => o.push_str("n "),
+            }
+            ser_ss(b, o)
+        }
+        S::Call(sp, p, args) => {
+            write!(o, "pc {} {} ", sp.0, sp.1).unwrap();
+            ser_e(p, o);
+            write!(o, "{} ", args.len()).unwrap();
+            for (m, a) in args {
+                write!(o, "{} ", m).unwrap();
+                ser_e(a, o);
+            }
+        }
+        S::Assert(c, r, v) => {
+            o.push_str("as ");
+            ser_e(c, o);
+            ser_oe(r.as_ref(), o);
+            ser_oe(v.as_ref(), o)
+        }
+        S::Report(m, v) => {
+            o.push_str("rp ");
+            ser_e(m, o);
+            ser_oe(v.as_ref(), o)
+        }
+        S::Next(c) => {
+            o.push_str("nx ");
+            ser_oe(c.as_ref(), o)
+        }
+        S::Exit(c) => {
+            o.push_str("ex ");
+            ser_oe(c.as_ref(), o)
+        }
+        S::Null => o.push_str("nu "),
+        S::Wait(ons, u, f) => {
+            write!(o, "wt {} ", ons.len()).unwrap();
+            ons.iter().for_each(|e| ser_e(e, o));
+            ser_oe(u.as_ref(), o);
+            ser_oe(f.as_ref(), o)
+        }
+    }
+}
+fn ser_proc(p: &Proc) -> String {
+    let mut o = String::new();
+    write!(o, "{} {} ", p.kw.0, p.kw.1).unwrap();
+    match &p.sens {
+        Sens::None => o.push_str("n "),
+        Sens::All => o.push_str("a "),
+        Sens::Names(ns) => {
+            write!(o, "l {} ", ns.len()).unwrap();
+            ns.iter().for_each(|e| ser_e(e, &mut o));
+        }
+    }
+    ser_ss(&p.body, &mut o);
+    o.trim_end().to_string()
+}
+
+// ---------------------------------------------------------------- Gallina terms (in-Coq sample)
+fn csp(s: &Sp) -> String {
+    format!("({},{})", s.0, s.1)
+}
+fn clist(v: Vec<String>) -> String {
+    format!("[{}]", v.join("; "))
+}
+fn coe(e: Option<&E>) -> String {
+    match e {
+        Some(x) => format!("(Some {})", ce(x)),
+        None => "None".into(),
+    }
+}
+fn ce(e: &E) -> String {
+    match e {
+        E::Lit(s) => format!("(ELit {})", csp(s)),
+        E::Desig(s, Some(i)) => format!("(EDesig {} (Some {}))", csp(s), i),
+        E::Desig(s, None) => format!("(EDesig {} None)", csp(s)),
+        E::Selected(s, p, d) => format!(
+            "(ESelected {} {} {})",
+            csp(s),
+            ce(p),
+            match d {
+                Some(i) => format!("(Some {})", i),
+                None => "None".into(),
+            }
+        ),
+        E::Slice(s, p, b) => format!("(ESlice {} {} {})", csp(s), ce(p), clist(b.iter().map(ce).collect())),
+        E::Attr(s, p, k, a) => format!(
+            "(EAttr {} {} {} {})",
+            csp(s),
+            ce(p),
+            ["AkImage", "AkEvent", "AkOther"][*k as usize],
+            coe(a.as_deref())
+        ),
+        E::Call(s, p, a) => format!("(ECall {} {} {})", csp(s), ce(p), clist(a.iter().map(ce).collect())),
+        E::Unary(s, x) => format!("(EUnary {} {})", csp(s), ce(x)),
+        E::Binary(s, l, r) => format!("(EBinary {} {} {})", csp(s), ce(l), ce(r)),
+        E::Aggregate(s, es) => format!("(EAggregate {} {})", csp(s), clist(es.iter().map(ce).collect())),
+        E::Qualified(s, x) => format!("(EQualified {} {})", csp(s), ce(x)),
+        E::Paren(s, x) => format!("(EParen {} {})", csp(s), ce(x)),
+    }
+}
+fn crg(r: &Rg) -> String {
+    match r {
+        Rg::Range(l, h) => format!("(RRange {} {})", ce(l), ce(h)),
+        Rg::Attr(a) => format!("(RAttr {})", ce(a)),
+    }
+}
+fn cwave(w: &Wave) -> String {
+    match w {
+        None => "None".into(),
+        Some(els) => format!(
+            "(Some {})",
+            clist(els.iter().map(|(v, a)| format!("({}, {})", ce(v), coe(a.as_ref()))).collect())
+        ),
+    }
+}
+fn crhs<A>(r: &Rhs<A>, f: &dyn Fn(&A) -> String) -> String {
+    match r {
+        Rhs::Simple(a) => format!("(RSimple {})", f(a)),
+        Rhs::Conditional(cs, els) => format!(
+            "(RConditional {} {})",
+            clist(cs.iter().map(|(a, c)| format!("({}, {})", f(a), ce(c))).collect()),
+            match els {
+                Some(a) => format!("(Some {})", f(a)),
+                None => "None".into(),
+            }
+        ),
+        Rhs::Selected(sel, alts) => format!("(RSelected {} {})", ce(sel), clist(alts.iter().map(f).collect())),
+    }
+}
+fn css(ss: &[S]) -> String {
+    clist(ss.iter().map(cs).collect())
+}
+fn cs(s: &S) -> String {
+    match s {
+        S::SigAssign(t, r) => format!("(SSigAssign {} {})", ce(t), crhs(r, &cwave)),
+        S::VarAssign(t, r) => format!("(SVarAssign {} {})", ce(t), crhs(r, &ce)),
+        S::Force(t, r) => format!("(SForce {} {})", ce(t), crhs(r, &ce)),
+        S::Release(t) => format!("(SRelease {})", ce(t)),
+        S::If(bs, els) => format!(
+            "(SIf {} {})",
+            clist(bs.iter().map(|(c, b)| format!("({}, {})", ce(c), css(b))).collect()),
+            css(els)
+        ),
+        S::Case(sel, alts) => format!("(SCase {} {})", ce(sel), clist(alts.iter().map(|a| css(a)).collect())),
+        S::Loop(it, b) => format!(
+            "(SLoop {} {})",
+            match it {
+                It::For(Dr::Subtype(tm, r)) => format!(
+                    "(IFor (DSubtype {} {}))",
+                    ce(tm),
+                    match r {
+                        Some(r) => format!("(Some {})", crg(r)),
+                        None => "None".into(),
+                    }
+                ),
+                It::For(Dr::Range(r)) => format!("(IFor (DRange {}))", crg(r)),
+                It::While(c) => format!("(IWhile {})", ce(c)),
+                It::None => "INone".into(),
+            },
+            css(b)
+        ),
+        S::Call(sp, p, args) => format!(
+            "(SCall {} {} {})",
+            csp(sp),
+            ce(p),
+            clist(
+                args.iter()
+                    .map(|(m, a)| format!(
+                        "({}, {})",
+                        match m {
+                            'i' => "MIn",
+                            'o' => "MOut",
+                            _ => "MInOut",
+                        },
+                        ce(a)
+                    ))
+                    .collect()
+            )
+        ),
+        S::Assert(c, r, v) => format!("(SAssert {} {} {})", ce(c), coe(r.as_ref()), coe(v.as_ref())),
+        S::Report(m, v) => format!("(SReport {} {})", ce(m), coe(v.as_ref())),
+        S::Next(c) => format!("(SNext {})", coe(c.as_ref())),
+        S::Exit(c) => format!("(SExit {})", coe(c.as_ref())),
+        S::Null => "SNull".into(),
+        S::Wait(ons, u, f) => format!(
+            "(SWait {} {} {})",
+            clist(ons.iter().map(ce).collect()),
+            coe(u.as_ref()),
+            coe(f.as_ref())
+        ),
+    }
+}
+fn cproc(p: &Proc) -> String {
+    format!(
+        "(mkProcess {} {} {})",
+        csp(&p.kw),
+        match &p.sens {
+            Sens::None => "None".to_string(),
+            Sens::All => "(Some SensAll)".to_string(),
+            Sens::Names(ns) => format!("(Some (SensNames {}))", clist(ns.iter().map(ce).collect())),
+        },
+        css(&p.body)
+    )
+}
+
+include!("c20/gen.rs");
+include!("c20/run.rs");
